@@ -245,6 +245,39 @@ theorem dedent_indent (ind : Line) (sel : Nat → Bool) (L : Lines) (i : Nat) :
       simp only [hs', Bool.false_eq_true, if_false, editLns]
       rw [ih (i + 1)]
 
+/-- **restore_insert**: restore ∘ insert = id on the lines, one point. -/
+theorem restore_insert (A B : Lines) (p q x : Line) :
+    putSrcLines (putSrcLines (A ++ (p ++ q) :: B) ⟨A.length, p.length, A.length, p.length⟩ (some [x]))
+      ⟨A.length, p.length, A.length, p.length + x.length⟩ none = A ++ (p ++ q) :: B := by
+  rw [insert_at, delete_inserted]
+
+/-- **restore_insert_span**: the temporaries a read-only slice get puts around a multi-line span (closing text `y` at the
+end point on a later line first, then opening text `x` at the start point — `_restore_solo_call_arg_genexp` and its
+counterpart) are removed again in the order end, start, each at the line it was put on: the document is the original. -/
+theorem restore_insert_span (A M B : Lines) (p q r s x y : Line) :
+    let L := A ++ (p ++ q) :: (M ++ (r ++ s) :: B)
+    let e := A.length + M.length + 1
+    let L1 := putSrcLines L ⟨e, r.length, e, r.length⟩ (some [y])
+    let L2 := putSrcLines L1 ⟨A.length, p.length, A.length, p.length⟩ (some [x])
+    let L3 := putSrcLines L2 ⟨e, r.length, e, r.length + y.length⟩ none
+    putSrcLines L3 ⟨A.length, p.length, A.length, p.length + x.length⟩ none = L := by
+  intro L e L1 L2 L3
+  have hA : ∀ u : Line, (A ++ u :: M).length = e := fun u => canon_len A M u
+  have h1 : L1 = A ++ (p ++ q) :: (M ++ (r ++ y ++ s) :: B) := by
+    show putSrcLines (A ++ (p ++ q) :: (M ++ (r ++ s) :: B)) _ _ = _
+    rw [canon_assoc A M B (p ++ q) (r ++ s), ← hA (p ++ q), insert_at, ← canon_assoc]
+  have h2 : L2 = A ++ (p ++ x ++ q) :: (M ++ (r ++ y ++ s) :: B) := by
+    show putSrcLines L1 _ _ = _
+    rw [h1, insert_at]
+  have h3 : L3 = A ++ (p ++ x ++ q) :: (M ++ (r ++ s) :: B) := by
+    show putSrcLines L2 _ _ = _
+    rw [h2, canon_assoc A M B (p ++ x ++ q) (r ++ y ++ s), ← hA (p ++ x ++ q), delete_inserted, ← canon_assoc]
+  rw [h3, delete_inserted]
+
+example : putSrcLines (putSrcLines ["total = sum(x * x".toList, "            for x in data)".toList]
+    ⟨1, 25, 1, 25⟩ (some [")".toList])) ⟨1, 25, 1, 26⟩ none
+    = ["total = sum(x * x".toList, "            for x in data)".toList] := by decide
+
 /-! ### non-vacuity: concrete, non-trivial states meet the hypotheses -/
 
 private def srcL : Lines := ["class C:".toList, "    x = [a,".toList, "         é + b]".toList, "    y = 1".toList]
